@@ -120,10 +120,6 @@ T.update({
  "C13-r2": dict(file="internal/native/sse/validate_utf8_fast_text_amd64.go", what="one byte of the SSE machine code: the surrogate-rejection constant of validate_utf8_fast can never match",
              needs="SSE natives (SONIC_MODE=noavx2); input containing an encoded surrogate half (ED A0..BF xx) followed by at least one more byte",
              caught={"C13": "quick (~3100 cases; C03-style case differs between SONIC_MODE=auto and noavx2)"}, missed={"C20": "quick (exercises the natives selected on this CPU only)"}, strengthened=""),
- "C14-r2": dict(file="unquote/unquote.go", what="unquote.String runs the native unquoter without the replace-lone-surrogates flag",
-             needs="a valid document whose string value or object key contains an unpaired surrogate escape, read through the ast package (String, Interface, Get past such a key, Preorder)",
-             caught={"C20": "quick (11 cases)", "C14": "quick after strengthening (108 cases)", "pinned suite": "fuzz::TestFuzzCases fails with this change (the agent had not run the fuzz module): NOT a valid seeded change, kept only as the record of why C14 now has lone surrogates"}, missed={"C14-before": "lone surrogate escapes were excluded from C14 documents altogether", "C15": "quick"},
-             strengthened="C14 documents may contain lone surrogate escapes in values and keys (paths never step through such a key). By-catch: listed finding C14-native-search-lone-surrogate-key"),
  "C15-r2": dict(file="ast/buffer.go", what="linkedPairs.Sort uses sort.Sort instead of sort.Stable",
              needs="SortKeys on an object with a duplicated key and more than 12 members",
              caught={"C15": "quick (~480 cases)"}, missed={}, strengthened=""),
